@@ -249,13 +249,56 @@ func c13Case(env *Env, tape *sim.Tape) *CaseOut {
 	return out
 }
 
+// c13Search runs random cases; every block of cases is followed by a digest of all
+// package-level state of the module under test (oracle "no globals written"). When a digest
+// changes, the block is re-run case by case to name the culprit call sequence.
 func c13Search(s *Search) {
+	g := loadGlobals()
+	base := g.digest()
+	s.Res.Stats["package_level_variables_digested"] = int64(len(g.names))
+	const block = 256
+	var pending []uint64
+	check := func() {
+		cur := g.digest()
+		s.Res.Stats["package_state_digests_taken"]++
+		if name := g.diff(base, cur); name != "" {
+			// find the case: replay the block one case at a time
+			prev := cur
+			culprit, cname := uint64(0), name
+			found := false
+			for _, idx := range pending {
+				s.F(s.Env, sim.NewTape(s.Env.Seed, s.Stream, idx))
+				now := g.digest()
+				if n := g.diff(prev, now); n != "" {
+					culprit, cname, found = idx, n, true
+					break
+				}
+				prev = now
+			}
+			if !found && len(pending) > 0 {
+				culprit = pending[0]
+			}
+			tape := sim.NewTape(s.Env.Seed, s.Stream, culprit)
+			s.F(s.Env, tape)
+			s.Res.Violations = append(s.Res.Violations, Replay{Property: s.Env.Prop, Tier: s.Env.Tier, Seed: s.Env.Seed, Stream: s.Stream,
+				Case: culprit, Tape: tape.Recorded(), OrigTape: tape.Used(), Engine: "libsim",
+				Violation: sim.Violation{Kind: "package-state-mutated", Site: cname,
+					Detail: "package-level variable " + cname + " of the module under test changed during minification (a minifier wrote through shared state, e.g. appended into the spare capacity of a package-level slice); first noticed for " + name}})
+			base = g.digest()
+		}
+		pending = pending[:0]
+	}
 	for i := uint64(0); s.More(); i++ {
 		if !s.Mine(int(i)) {
 			continue
 		}
 		s.TryRandom(i)
+		pending = append(pending, i)
+		if len(pending) >= block {
+			check()
+		}
 	}
+	check()
 }
 
 func init() {
